@@ -9,8 +9,12 @@ THEOREMS = ["PauLie.C07.universalSet_eq", "PauLie.C07.C07_size", "PauLie.C07.C07
             "PauLie.C07.Q_add", "PauLie.C07.Q_closure", "PauLie.C07.C07_refuted_odd", "PauLie.C07.C07_refuted",
             "PauLie.C07.C07_anchor_4_3", "PauLie.C07.C07_even_partial", "PauLie.C07.C07_size_k1_duplicates",
             "PauLie.Closure.closureList_sound_complete", "PauLie.Closure.closureList_exhausted",
-            "PauLie.Closure.closureList_nodup", "PauLie.Tie.uset_tie"]
-IMPORTS = ["PauLieVerif.Properties.C07", "PauLieVerif.Proofs.Closure", "PauLieVerif.Proofs.TieApps"]
+            "PauLie.Closure.closureList_nodup", "PauLie.Tie.uset_tie",
+            "PauLie.C07.C07_even_universal", "PauLie.C07.C07_even_universal_text", "PauLie.C07.C07_even_count",
+            "PauLie.C07.C07_statement_even", "PauLie.C07.C07_generation_iff_even",
+            "PauLie.C07.C07_even_left_block", "PauLie.C07.C07_even_single_right",
+            "PauLie.C07.C07_even_nonidentity_left", "PauLie.C07.C07_even_identity_left"]
+IMPORTS = ["PauLieVerif.Properties.C07", "PauLieVerif.Properties.C07Even", "PauLieVerif.Proofs.Closure", "PauLieVerif.Proofs.TieApps"]
 
 CLOSURE_MAX = {"quick": 6, "thorough": 8}
 PY_CLOSURE_MAX = 8
@@ -147,8 +151,13 @@ RULE = ("construct_universal_set compared with the model for every (N,k) with -1
 def main(tier):
     return standard_main(PID, tier, "other", THEOREMS, IMPORTS, build_streams, known_match=known_match, rule=RULE,
         assumptions=["size/distinctness/length: proved in Lean for ALL N and 2<=k<N about the model of construct_universal_set (tied by exhaustive correspondence N<=10/12)",
-                     "generation is FALSE for every odd k>=3 (C07_refuted_odd, all N) — recorded finding 'k odd'; for even k it is decided per (N,k) by the verified "
-                     "closure (N<=6/8, C07_even_partial N<=5 in the kernel); the all-N universality for even k is the theorem of arXiv:2408.03294 and is NOT proved"])
+                     "generation is decided by theorems for EVERY (N,k) with 2<=k<N, about the model: it holds iff k is even (C07_generation_iff_even). "
+                     "FALSE for every odd k>=3 (C07_refuted_odd, all N) — recorded finding 'k odd'; TRUE for every even k and every N "
+                     "(C07_even_universal: the closure of the model's set is exactly the non-identity strings of length N; C07_even_count: the verified "
+                     "closure checker lists 4^N-1 strings) — proved from the connectivity of the left walk graph, not assumed from arXiv:2408.03294",
+                     "the all-N theorems are about the model of construct_universal_set; the implementation is tied to it by exhaustive correspondence "
+                     "(N<=10/12) and its printed set is additionally closed by the verified checker for N<=6/8",
+                     "the classifier clause (get_algebra()==su(2^N)) is not a Lean statement; evaluated on the implementation for N<=10/14"])
 
 def replay(path):
     r = json.load(open(path)); line = r.get("line")
